@@ -119,6 +119,18 @@ func runC14(ctx *Ctx) {
 		}
 		inputs = append(inputs, b)
 	}
+	// a systematic family around bodies: keyword, parameters, line end, body, what follows the body
+	for _, kw := range scanTokens[:30] {
+		for _, par := range []string{"", " @a", " /p", " any", " regex", " 0.3", " \"a b\""} {
+			for _, body := range []string{"{}", "[1]", "/x/", "text", "@a", "{\"a\":1}"} {
+				for _, suf := range []string{"", " ", "\t", " # c", " //", "\n", "\r", "\r\n", " \n"} {
+					for _, next := range []string{"", "GET /a", ")"} {
+						inputs = append(inputs, []byte(kw+par+"\n"+body+suf+next))
+					}
+				}
+			}
+		}
+	}
 	fixtures := fixtureFiles()
 	var fixtureContents [][]byte
 	for _, f := range fixtures {
